@@ -319,7 +319,7 @@ def main():
         m.close()
     chk.obligation("corr:parallel-moves-model-vs-code", "correspondence", chk.corr["disagreements"] == 0,
                    "%d compared, %d disagreements" % (chk.corr["compared"], chk.corr["disagreements"]))
-    if (not okp or chk.corr["disagreements"]) and not found:
+    if (not okp or chk.corr["disagreements"]) and not chk.has_failing_input():
         what = [("%s (%s): %s" % (n, r, d)) for n, r, ok, d in chk.obligations if not ok]
         what += [str(d) for d in chk.model_disagreements[:5]]
         chk.violation("C11:unproved", "proof obligations or correspondence broken, no failing substitution found: " + "; ".join(what)[:600],
